@@ -1,17 +1,22 @@
 ---- MODULE KeepaliveSrvMC ----
 EXTENDS KeepaliveSrv
 CONSTANTS MaxEv, MaxStreams, MaxMinT
-VARIABLE nev
-vars == <<svars, nev>>
-Init == SInit({K * i : i \in 1..MaxMinT}) /\ nev = 0
+VARIABLES nev,
+          sinceReset   \* observer (behaviour generation only): number of pings since and including the last ping that
+                       \* followed server-sent HEADERS/DATA (1..4, 0 = none); it keeps "ping after a server send, then a
+                       \* burst of pings" apart from other paths to the same ledger state, so that the edge cover contains
+                       \* timelines in which the ledger entry written by such a ping (lastPingAt) matters
+vars == <<svars, nev, sinceReset>>
+Init == SInit({K * i : i \in 1..MaxMinT}) /\ nev = 0 /\ sinceReset = 0
 Ev == nev < MaxEv /\ nev' = nev + 1
 \* gap classes: 1..3 = MinTime -1/0/+1, 4..6 = TwoH -1/0/+1, 7 = one unit
 GapOf(c) == CASE c = 1 -> MinT - 1 [] c = 2 -> MinT [] c = 3 -> MinT + 1
               [] c = 4 -> TwoH - 1 [] c = 5 -> TwoH [] c = 6 -> TwoH + 1 [] c = 7 -> 1
-PingE(c) == Ev /\ Ping(GapOf(c))
-OpenE == Ev /\ Open(MaxStreams)
-CloseE == Ev /\ CloseS
-SendE == Ev /\ Send
-FinishE == Ev /\ Finish
+PingE(c) == /\ Ev /\ Ping(GapOf(c))
+            /\ sinceReset' = IF resetFlag THEN 1 ELSE IF sinceReset = 0 \/ sinceReset >= 4 THEN 0 ELSE sinceReset + 1
+OpenE == Ev /\ Open(MaxStreams) /\ UNCHANGED sinceReset
+CloseE == Ev /\ CloseS /\ UNCHANGED sinceReset
+SendE == Ev /\ Send /\ UNCHANGED sinceReset
+FinishE == Ev /\ Finish /\ UNCHANGED sinceReset
 Next == (\E c \in 1..7 : PingE(c)) \/ OpenE \/ CloseE \/ SendE \/ FinishE
 ====
